@@ -31,5 +31,6 @@ def main (args : List String) : IO UInt32 := do
   | ["history"] => loop stdin stdout historyLine; return 0
   | ["build"] => loop stdin stdout buildLine; return 0
   | ["params"] => loop stdin stdout paramsLine; return 0
+  | ["wrapper"] => loop stdin stdout wrapperLine; return 0
   | ["atoms-oracle"] => loop stdin stdout AtomsOracle.check; return 0
   | _ => IO.eprintln "usage: optrs-model <stream>"; return 2
